@@ -3,6 +3,7 @@ package c18
 import (
 	"context"
 	"fmt"
+	"runtime"
 	"sort"
 	"strings"
 	"time"
@@ -60,9 +61,14 @@ func (d *driver) start(st step) {
 	d.calls[st.Label] = cl
 	d.order = append(d.order, cl)
 	d.pending[addr]++
+	// calls on one address are made one after the other: the next request the
+	// room sees for it is this call's
+	cl.reqIndex = d.w.countRequests(addr) + 1
 	d.w.log.add(event{Ev: "call", Op: st.Op, Call: cl.n, Addr: addr, Ctx: cl.ctxN})
+	gidCh := make(chan string, 1)
 	go func() {
 		defer close(cl.done)
+		gidCh <- goroutineID()
 		d.c.Guard("muc."+st.Op, func() {
 			switch st.Op {
 			case "join":
@@ -80,6 +86,35 @@ func (d *driver) start(st step) {
 		}
 		d.w.log.add(event{Ev: "ret", Op: st.Op, Call: cl.n, Addr: addr, Err: class, Cond: cond, Text: text})
 	}()
+	cl.gid = <-gidCh
+}
+
+func goroutineID() string {
+	buf := make([]byte, 64)
+	buf = buf[:runtime.Stack(buf, false)]
+	f := strings.Fields(string(buf)) // "goroutine 123 [running]:"
+	if len(f) >= 2 {
+		return f[1]
+	}
+	return ""
+}
+
+// parkedCall returns the stack of cl's goroutine if it is parked in the
+// library's Join/Leave wait (three samples when confirm is set).
+func (d *driver) parkedCall(cl *call, confirm bool) *stall.Parked {
+	var found map[string]stall.Parked
+	if confirm {
+		found = map[string]stall.Parked{}
+		for _, p := range stall.Check(isMucWait, 0) {
+			found[p.ID] = p
+		}
+	} else {
+		found = stall.Snapshot(isMucWait)
+	}
+	if p, ok := found[cl.gid]; ok {
+		return &p
+	}
+	return nil
 }
 
 // finish books a returned call.
@@ -122,15 +157,9 @@ func (d *driver) await(st step) {
 		return
 	default:
 	}
-	var stuck []stall.Parked
-	for _, p := range stall.Check(isMucWait, 0) {
-		if _, old := d.base[p.ID]; !old {
-			stuck = append(stuck, p)
-		}
-	}
-	if len(stuck) > 0 && st.Must {
+	if pk := d.parkedCall(cl, true); pk != nil && st.Must {
 		what := "the room's answer was sent after it had seen the request and has been processed by the serve loop"
-		d.c.Violate(stall.Key(stuck[0]), "%s(%s) does not return although %s; its context is never cancelled:\n%s", cl.op, cl.addr, what, stuck[0].Stack)
+		d.c.Violate(stall.Key(*pk), "%s(%s) does not return although %s; its context is never cancelled:\n%s", cl.op, cl.addr, what, pk.Stack)
 		d.c.Count("stalled_calls", 1)
 		d.w.log.add(event{Ev: "cancel", Ctx: cl.ctxN})
 		cl.cancel() // let it go so that the case can finish
@@ -216,12 +245,27 @@ func (d *driver) exec(st step) {
 			cl.cancel()
 		}
 	case "seen":
-		if _, ok := w.nthRequest(d.addr(st.Room), st.N, hardLimit); !ok {
+		cl := d.calls[st.Label]
+		if cl == nil || cl.reqIndex == 0 {
+			break
+		}
+		if _, ok := w.nthRequest(cl.addr, cl.reqIndex, 300*time.Millisecond); ok {
+			break
+		}
+		// A Channel.Join can block before it sends anything (an abandoned earlier
+		// join still occupies the channel's slot).  Nothing in the property says a
+		// request must go out, so the script simply goes on; what follows does
+		// not depend on the request having been seen.
+		if d.parkedCall(cl, false) != nil {
+			d.c.Count("requests_not_sent_while_call_parked", 1)
+			break
+		}
+		if _, ok := w.nthRequest(cl.addr, cl.reqIndex, hardLimit); !ok {
 			select {
 			case <-w.served:
 				d.c.Violate("muc:session-ended", "the session ended: Serve returned %v", w.srvErr)
 			default:
-				d.c.Inconclusive("the room never saw request %d for %s", st.N, d.addr(st.Room))
+				d.c.Inconclusive("the room never saw the request of %s(%s)", cl.op, cl.addr)
 			}
 			d.aborted = true
 		}
@@ -230,8 +274,10 @@ func (d *driver) exec(st step) {
 	case "self-unsolicited", "self-again":
 		w.presence(d.addr(st.Room), "", "", true, 110)
 	case "error":
-		if rq, ok := w.nthRequest(d.addr(st.Room), st.N, hardLimit); ok {
-			w.errorPresence(d.addr(st.Room), rq.ID, errTypeOf(st.Cond), st.Cond)
+		if cl := d.calls[st.Label]; cl != nil && cl.reqIndex != 0 {
+			if rq, ok := w.nthRequest(cl.addr, cl.reqIndex, 0); ok {
+				w.errorPresence(cl.addr, rq.ID, errTypeOf(st.Cond), st.Cond)
+			}
 		}
 	case "other":
 		w.presence(strings.SplitN(d.addr(st.Room), "/", 2)[0]+"/secondwitch", "", "", false)
